@@ -410,7 +410,13 @@ func outside(x *engine.X, err error, where string) bool {
 func (o *once) flush() {
 	for _, k := range o.order {
 		if n := o.count[k]; n > 1 {
-			o.X.Failf(k, "%s  [+ %d more case(s) of this execution with the same finding]", o.first[k], n-1)
+			// the first line of a failure message is what the replay confirmation compares: it must not contain
+			// library error texts (their wording depends on Go map iteration order inside the library)
+			head, rest, _ := strings.Cut(o.first[k], "\n")
+			if rest != "" {
+				rest = "\n" + rest
+			}
+			o.X.Failf(k, "%s  [+ %d more case(s) of this execution with the same finding]%s", head, n-1, rest)
 		} else {
 			o.X.Failf(k, "%s", o.first[k])
 		}
